@@ -402,6 +402,7 @@ PTR_PROBES = [
     ("*ppi", 1), ("**ppi", 8), ("&arr", 11), ("&carr", 12), ("pa", 11), ("*pa", 1), ("pa + 1", 11), ("(*pa)[1]", 8), ("\"abc\"", 5), ("&\"abc\"[1]", 5),
     ("*\"abc\"", 16), ("(int[]){1, 2}", 1), ("&(int){1}", 1), ("(const int[]){1}", 2), ("&(struct q){0}", 14), ("(struct q){0}.am", 1), ("pvi", 17), ("pvi + 1", 17),
     ("1 ? pvi : pvi", 17), ("(const char *)pc", 18), ("1 ? pc : (const char *)pc", 18), ("__func__", 18), ("l ? pi : pi", 1), ("pc + (pi - pi)", 5),
+    ("0 == pi", 8), ("(void *)0 != pi", 8), ("pv == pi", 8), ("pi == pv", 8), ("pcv != pi", 8), ("pi == (void *)0", 8), ("pv == 0", 8), ("fn == 0", 8), ("0 != fn", 8),
     ("(pi, pci)", 2), ("(1, arr)", 1), ("(1, fn)", 6), ("+l", 7), ("l << 1", 7), ("1 << l", 8), ("(char)l", 16), ("psq->am + 1", 1), ("pcsq->am", 2),
 ]
 
